@@ -1,5 +1,7 @@
 from typing import Type
 
+import pandas as pd
+
 from reamber.base.lists.TimedList import TimedList
 
 
@@ -19,7 +21,10 @@ class ConvertBase:
 
         buffer = target.empty(len(src))
         for to_, from_ in mapping.items():
-            buffer.__setattr__(
-                to_, src.__getattribute__(from_) if isinstance(from_, str) else from_
-            )
+            value = src.__getattribute__(from_) if isinstance(from_, str) else from_
+            if isinstance(value, pd.Series):
+                # Copy row by row (positionally): the source's row labels are
+                # arbitrary after filters, sorts, stacking or rate changes.
+                value = value.to_numpy()
+            buffer.__setattr__(to_, value)
         return buffer
